@@ -310,6 +310,58 @@ def nat_merge_seq(params, model):
     return {"ok": label is None, "detail": label or f"second merged waveform {merged[1]['data'].tolist()}", "label": label}
 
 
+# ---------------------------------------------------------------------------- splitting tiles the parent peak
+WAVES = {  # two bumps with a valley: both splitters cut once
+    "a": [5, 9, 5, 0, 0, 0, 0, 5, 9, 5],
+    "b": [1, 8, 1, 0, 7, 9, 2],
+    "c": [3, 9, 0, 0, 9, 9, 9, 3],
+}
+
+
+def _split_children(mk, t, dt, wave, algo):
+    import strax
+    from strax.processing import peak_splitting as ps
+
+    w = WAVES[wave]
+    PD = np.dtype(strax.peak_dtype(n_channels=2, n_sum_wv_samples=len(w)))
+    p = mk(PD, 1)
+    p["time"][0], p["length"][0], p["dt"][0], p["channel"][0] = t, len(w), dt, -1
+    for k, v in enumerate(w):
+        p["data"][0][k] = float(v)
+    p["area"][0] = float(sum(w))
+    S, args = (ps.NaturalBreaksSplitter, (np.array([0.1]), False, False, 0)) if algo == "natural_breaks" else \
+        (ps.LocalMinimumSplitter, (1.0, 0.0))
+    is_split = np.zeros(1, dtype=bool)
+    out = S._split_peaks(split_finder=S.find_split_points, peaks=p, is_split=is_split, orig_dt=dt, min_area=0,
+                         args_options=args, result_dtype=PD)
+    return out, len(w)
+
+
+def _split_check(out, t, dt, n):
+    prove(len(out) >= 2, "split:the two-bump waveform was not split (harness precondition)")
+    prove(out["time"][0] == t, "split:first fragment does not start at the parent's start")
+    for k in range(len(out) - 1):
+        prove(out["time"][k] + out["length"][k] * out["dt"][k] == out["time"][k + 1],
+              "split:consecutive fragments are not adjacent")
+    prove(out["time"][-1] + out["length"][-1] * out["dt"][-1] == t + n * dt,
+          "split:fragments do not cover the parent up to its end (time not conserved)")
+    return [int(x) for x in out["length"]]
+
+
+def sym_split(algo, wave, dt):
+    t = fresh_int("t", 0, 2**60)
+    out, n = _split_children(lambda d, k: arrays.make(d, k), t, dt, wave, algo)
+    return _split_check(out, t, dt, n)
+
+
+def nat_split(params, model):
+    t = model["t"]
+    out, n = _split_children(lambda d, k: np.zeros(k, d), t, params["dt"], params["wave"], params["algo"])
+    label = core.concrete_run(lambda: _split_check(out, t, params["dt"], n), model)
+    return {"ok": label is None, "label": label,
+            "detail": label or f"fragments {[(int(o['time']), int(o['length'])) for o in out]} tile the parent"}
+
+
 def _replace_grid(tier):
     out = []
     for n in range(1, 6 if tier == "quick" else 7):
@@ -328,6 +380,10 @@ def sym_twin():
 
 
 MUTANTS = [
+    dict(name="original F-C19d: natural breaks splitter ends one sample early", file="strax/processing/peak_splitting.py", only="split",
+         old="            yield max_i, 0.0\n            yield len(w), 0.0", new="            yield max_i, 0.0\n            yield len(w) - 1, 0.0"),
+    dict(name="merge buffers re-zeroed over the (down-sampled) output length only", file="strax/processing/peak_merging.py", only="merge_seq",
+         old="        bl = min(int(bl / common_dt), max_buffer)\n", new="        bl = min(int(bl / common_dt), max_buffer, len(new_p[\"data\"]))\n"),
     dict(name="gap threshold strict", file="strax/processing/peak_building.py", only="peaks",
          old='            next_hit_is_far = next_hit["time"] - peak_endtime >= gap_threshold',
          new='            next_hit_is_far = next_hit["time"] - peak_endtime > gap_threshold'),
@@ -348,6 +404,10 @@ OBLIGATIONS = [
     Ob("replace", sym_replace, lambda tier: [dict(no=n, groups=g) for n, g in _replace_grid(tier)], nat_replace,
        setup=_setup, witnesses=2, doc="replace_merged == merged + originals touching none of them, sorted"),
     Ob("merge", sym_merge, lambda tier: [dict()], None, setup=_setup, witnesses=0),
+    Ob("split", sym_split, lambda tier: [dict(algo=a, wave=w, dt=d) for a in ("natural_breaks", "local_minimum")
+                                         for w in WAVES for d in (1, 10)], nat_split, setup=_setup, witnesses=1,
+       doc="_split_peaks with each splitter's real find_split_points on two-bump waveforms, symbolic peak time: the "
+           "fragments tile the parent peak"),
     Ob("merge_seq", sym_merge_seq, lambda tier: [dict()], nat_merge_seq, setup=_setup, witnesses=1,
        doc="two groups in one merge_peaks call (first down-sampled, second with a hole): the second merged waveform is "
            "the sum of its own constituents only"),
